@@ -8,6 +8,7 @@ from hypothesis import strategies as st
 from vlib.harness import SubCheck, must, must_raise, require
 
 PROPERTY_ID = "C13"
+TECHNIQUE = 'property-based testing (Hypothesis) of conservation laws (validity predicates over the outputs) with boundary-weighted generators'
 RULE = (
     "Lists of 0..8 opaque circuits with sample counts 1..10^6 (at most 300 copies per circuit; boundaries k*max, k*max+-1 "
     "over-weighted) and maxima 1..10^4; synthetic per-copy count dictionaries / bitstring lists; batch "
